@@ -36,10 +36,12 @@
 EXTENDS Integers, Sequences, FiniteSets, TLC, Json
 
 CONSTANTS Cap,        \* lengths 0..Cap are tracked exactly, Cap+1 stands for "more than Cap"
-          Msgs,       \* catalogue: sequence of [kind, idk, id, blen, rlen] (typed id; byte / rune length of the JSON body)
+          Msgs,       \* catalogue: sequence of [kind, idk, id, pay, blen, rlen] (typed id; payload kind; byte / rune length of the JSON body)
           MaxMsgs,    \* sequences of 1..MaxMsgs messages
           LenMode,    \* "bytes" (as coded) | "runes" (negative configuration)
           IdDecode,   \* "strict" (as coded) | "unquote" (negative configuration: "7" decodes as the number 7)
+          NullResult, \* "ok" (as coded: "result":null is a result) | "rejected" (negative configuration: a decoder that
+                      \* demands "exactly one of result / error" and cannot tell null from an absent member)
           Variants,   \* set of variant names explored
           ChunkMax,   \* Deliver(k) for k in 1..ChunkMax, plus "to the end of the wire"
           AllCuts     \* TRUE: every truncation point; FALSE: the first/last two and the middle of each region
@@ -228,6 +230,13 @@ VARIABLES sent,     \* message sequence (indices into Msgs)
           bstart,   \* wire position where the body being read began (0: in a header)
           chunks    \* history: sizes of the chunks delivered; -(k+1) = k bytes and EOF in one read (output only)
 
+\* Payload kinds: params of a call / notification and the result of a successful response are JSON values of
+\* kind object | array | string | number | true | false | null; an error response is "error" or "errdata"
+\* (with the optional data member).  DecodeMessage accepts every one of them.
+ValueKinds == {"object", "array", "string", "number", "true", "false", "null"}
+PayKinds   == ValueKinds \cup {"error", "errdata"}
+Undecodable(m) == NullResult = "rejected" /\ Msgs[m].kind = "response" /\ Msgs[m].pay = "null"
+
 \* the message (if any) whose complete body is exactly wire[s..e]
 DecodeAt(regs, s, e) == LET hit == {i \in 1..Len(regs) : regs[i].s = s /\ regs[i].e = e}
                         IN  IF hit = {} THEN 0 ELSE regs[CHOOSE i \in hit : TRUE].msg
@@ -238,7 +247,7 @@ Feed(w, regs, st, out, bs, i, j) ==
     IF i > j \/ st.st = "err" THEN [r |-> st, read |-> out, bstart |-> bs]
     ELSE IF Completes(st)
          THEN LET m == DecodeAt(regs, bs, i)
-              IN  IF m = 0 THEN [r |-> Fail("decode"), read |-> out, bstart |-> 0]
+              IN  IF m = 0 \/ Undecodable(m) THEN [r |-> Fail("decode"), read |-> out, bstart |-> 0]
                   ELSE Feed(w, regs, Step(st, w[i]), Append(out, m), 0, i + 1, j)
          ELSE LET nx == Step(st, w[i])
               IN  Feed(w, regs, nx, out, IF st.st = "hdr" /\ nx.st = "body" THEN i + 1 ELSE bs, i + 1, j)
@@ -333,6 +342,12 @@ SentIds == [k \in 1..Len(sent) |-> Msgs[sent[k]].id]
 \* the id read back is the id written, including its type (number vs string)
 IdsPreserved == \A k \in 1..Len(read) : k <= Len(sent) => ReadIds[k] = SentIds[k]
 
+\* the payload kind read back is the payload kind written (a null result stays a successful response)
+ReadPays == [k \in 1..Len(read) |-> Msgs[read[k]].pay]
+SentPays == [k \in 1..Len(sent) |-> Msgs[sent[k]].pay]
+PayloadsPreserved == /\ \A k \in 1..Len(read) : k <= Len(sent) => ReadPays[k] = SentPays[k]
+                     /\ \A k \in 1..Len(Msgs) : Msgs[k].pay \in PayKinds
+
 \* the outcome is a function of the wire, not of how it was cut into chunks
 Outcome(w, regs) == LET f == Feed(w, regs, R0, <<>>, 0, 1, Len(w)) IN [read |-> f.read, err |-> AtEOF(f.r).err]
 ChunkingIrrelevant == Done => [read |-> read, err |-> r.err] = Outcome(wire, regions)
@@ -340,6 +355,6 @@ ChunkingIrrelevant == Done => [read |-> read, err |-> r.err] = Outcome(wire, reg
 Class(k) == IF k \in GoodVariants THEN "good" ELSE IF k \in LenientVariants THEN "lenient" ELSE "bad"
 
 Behaviour == [sent |-> sent, variant |-> var.kind, at |-> var.at, cut |-> var.cut, class |-> Class(var.kind),
-              wire |-> wire, chunks |-> chunks, read |-> read, err |-> r.err, ids |-> ReadIds]
+              wire |-> wire, chunks |-> chunks, read |-> read, err |-> r.err, ids |-> ReadIds, pays |-> ReadPays]
 PrintBehaviour == Done => PrintT(<<"BEH", ToJson(Behaviour)>>)
 =============================================================================
